@@ -44,6 +44,18 @@ impl<'h> EndTimeObjectPatternGenerator<'h> {
         }
     }
 
+    #[cfg(rosu_pp_verif)]
+    pub(crate) fn verif_inputs(&self) -> String {
+        format!(
+            r#""k":{},"ct":"{}","finish":{},"dur":{},"prev":{}"#,
+            self.inner.total_columns,
+            self.convert_type,
+            self.sample.has_flag(HitSoundType::FINISH),
+            self.end_time - self.inner.hit_object.start_time,
+            self.prev_pattern.verif_notes(self.inner.total_columns),
+        )
+    }
+
     pub fn generate(&mut self) -> Pattern {
         let generate_hold = self.end_time - self.inner.hit_object.start_time >= 100.0;
 
